@@ -145,6 +145,17 @@ def oracle(case, R):
 
     # ---------- exact modal reference
     Mm, Bm, Km = np.diag(S["m"]), S["Bm"], np.diag(S["k"])
+    kfull = False
+    if case.get("kskew") and form == "nonprop" and len(el) >= 2:
+        # circulatory (non-symmetric) part in the stiffness of the elastic block: follower loads, feedback terms.
+        # Small against the softest mode, so that the generated systems stay (nearly) stable
+        rk_ = util.rng_of(case["seed"] + 91)
+        Y_ = rk_.standard_normal((len(el), len(el)))
+        G_ = Y_ - Y_.T
+        Km = Km.copy()
+        Km[np.ix_(el, el)] += float(case["kskew"]) * np.abs(S["k"][el]).min() * G_ / max(np.abs(G_).max(), 1e-300)
+        kfull = True
+        R.label("stiffness:nonsymmetric")
     ic = case["ic"]
     d0 = S["d0"].copy() if ic == "random" else None
     v0 = S["v0"].copy() if ic == "random" else None
@@ -229,6 +240,8 @@ def oracle(case, R):
             M_in = np.diag(mv)
         B_in = np.diag(Bp).copy() if (diagB and case.get("bvec", True)) else Bp
         K_in = kv if case.get("kvec", True) else np.diag(kv)
+        if kfull:
+            K_in = Km[pm]
         rb_in = sorted(int(inv[i]) for i in rb) if case.get("rb_given") else None
         rf_in = sorted(int(inv[i]) for i in rf) if rf else None
         dref, vref, aref = dref[perm], vref[perm], aref[perm]
@@ -519,6 +532,7 @@ def cases(draw, form):
         ic = "random"
     return {"ppack": draw(st.sampled_from(util.PART_FORMS)),
             "icform": draw(st.sampled_from(["asis", "asis", "zeros_d0", "zeros_v0", "zeros_both", "only_d0", "only_v0"])),
+            "kskew": draw(st.sampled_from([0.0, 0.0, 0.1, 0.3])) if form == "nonprop" else 0.0,
             "form": form, "h": h, "modes": modes, "nt": draw(st.integers(2, 40)),
             "order": draw(st.sampled_from([0, 1])), "seed": draw(st.integers(0, 2 ** 31)),
             "mform": mform, "rb_given": rb_given, "perm": draw(st.booleans()),
